@@ -479,6 +479,7 @@ func (s *socket) MaybeUpgrade(transport transports.Transport) {
 	}, s.server.Opts().UpgradeTimeout()))
 
 	transport.On("packet", onPacket)
+	vhook.Yield("socket.MaybeUpgrade.reading")
 	transport.Once("close", onTransportClose)
 	transport.Once("error", onError)
 
